@@ -56,6 +56,7 @@ type ReplayFile struct {
 	SMT        string            `json:"smt,omitempty"`
 	Model      map[string]string `json:"model,omitempty"`
 	TestSource string            `json:"replay_test_source,omitempty"`
+	SpecSource string            `json:"generated_spec_functions,omitempty"` // the contract clauses as Go functions (needed to re-run the test)
 	TestOutput string            `json:"replay_test_output,omitempty"`
 	Reproduced bool              `json:"reproduced_on_real_code"`
 	Note       string            `json:"note"`
